@@ -88,6 +88,12 @@ def units(rng, tier):
                 v = v[:6]
                 kk = min(kk, 7)      # all_combinations enumerates k! permutations
             us.append(mk(rng, a, kk, v, fam))
+    # multifit, dense: its capacity search accepts a capacity by COUNTING the bins of a first-fit-decreasing probe and then packs with
+    # first-fit at the final capacity - any mismatch between the probe and the final packing shows as one bin too many on a few inputs
+    for _ in range(2500 if tier == "quick" else 30000):
+        vals = [rng.randint(0 if rng.random() < 0.1 else 1, rng.choice([20, 30, 30, 100])) for _ in range(rng.randint(3, 12))]
+        kw = {"iterations": rng.choice([1, 2, 3, 5])} if rng.random() < 0.25 else {}
+        us.append(part_unit("multifit", rng.choice([2, 2, 3, 3, 4, 5]), vals, rng, fmt="list", cmp="sums", family="multifit-dense", **kw))
     # the recursive searches with many bins: rnp with 5 bins (its odd branch recurses into the 4-way search) and snp with 4-5 bins
     # on 8-9 small values with repeats - the bookkeeping of prior bins / best-so-far across recursion levels only shows here
     for _ in range(500 if tier == "quick" else 6000):
